@@ -164,6 +164,32 @@ Fixpoint consumed_from (c : cfg) (st : tstate) (items : list read_item) : nat :=
   end.
 Definition consumed (c : cfg) (items : list read_item) : nat := consumed_from c tstate0 items.
 
+(** Harness tie only: the dial outcome as the environment decides it. Given the
+    set [live] of addresses that accept connections, rewrite the [a_dial]
+    answer of every read to what the environment would answer at that point
+    (the theorems quantify over all answers, so they cover every [live]). *)
+Definition dial_answer (live : list bytes) (st : tstate) (data : bytes) : bool :=
+  match fstep (fs st) data with
+  | FPacket ty _ body =>
+      if ty =? PKT_TYPE_CHANNEL_CREATE then
+        let '(server, port) := channel_request body in
+        existsb (bytes_eqb (join_host_port server port)) live
+      else true
+  | _ => true
+  end.
+
+Fixpoint resolve_dials (live : list bytes) (c : cfg) (st : tstate) (items : list read_item)
+  : list read_item :=
+  match items with
+  | [] => []
+  | RErr :: rest => RErr :: rest
+  | RData d a :: rest =>
+      let a' := {| a_cookie := a_cookie a; a_name := a_name a; a_host := a_host a;
+                   a_dial := dial_answer live st d |} in
+      let '(st', _, fin) := tstep c st (RData d a') in
+      RData d a' :: (if fin then rest else resolve_dials live c st' rest)
+  end.
+
 (** Final state reached (for statements about phases). *)
 Fixpoint final_from (c : cfg) (st : tstate) (items : list read_item) : tstate * bool :=
   match items with
